@@ -85,6 +85,10 @@ def gen_r(rng, L0, allow_zero=True):
         return 0.0, "r=0"
     if u < 0.25:
         return logu(rng, 1e-20, 1e-6), "r:tiny"
+    if u < 0.31:
+        # a separation bit-for-bit equal to (a small multiple of) the outer scale: tabulating D at multiples of L0 is what callers do, and
+        # an implementation that uses L0 as its internal stand-in for "no separation" confuses the two (seeded change C08-I)
+        return rng.choice([1.0, 1.0, 2.0, 0.5, 3.0, 0.25]) * L0, "r=k*L0"
     if u < 0.75:
         return logu(rng, 1e-6, 1.0) * L0, "r<L0"
     return logu(rng, 1.0, 1e4) * L0, "r>L0"
@@ -653,6 +657,13 @@ def input_classes(chk, n):
                     assert numpy.array_equal(numpy.asarray(v, dtype=float), numpy.broadcast_to(x.astype(float), v.shape).reshape(v.shape)
                                              if cls == "broadcast" else x.astype(float).reshape(v.shape))
                     same("layout:" + cls, ev(v, a, b), want, **rp)
+                # a SQUARE 2-D array of separations that is not a symmetric matrix (the cross block between two different point sets of
+                # equal size): the value at [i, j] is that of the separation at [i, j] (seeded change C08-J evaluated the upper triangle
+                # of every square array and mirrored it)
+                sq = x[:16].astype(float).reshape(4, 4)
+                same("layout:square-non-symmetric", ev(sq, a, b), base[:16].reshape(4, 4), **rp)
+                sq9 = numpy.concatenate([x, x[:1]]).astype(float).reshape(5, 5)[::-1]
+                same("layout:square-non-symmetric", ev(sq9, a, b), numpy.concatenate([base, base[:1]]).reshape(5, 5)[::-1], **rp)
 
 
 def float32_separations(chk, n):
@@ -727,7 +738,7 @@ def near_equal_history(chk, n):
             r0, L0 = gen_atm(rng)
         A = (L0 / r0) ** (5. / 3)
         sat, c0 = KD * A, 0.5 * kc * A
-        r = numpy.array([0.0] + sorted(logu(rng, 1e-6, 1e3) * L0 for _ in range(10)) + [1e5 * L0])
+        r = numpy.array([0.0] + sorted([logu(rng, 1e-6, 1e3) * L0 for _ in range(9)] + [L0]) + [1e5 * L0])
         chk.count("oracle:near-equal-history")
         chk.case(("near-equal-history", r0, L0, it))
         # KL copy first, then the slope-covariance copy, for this fresh atmosphere
